@@ -16,71 +16,69 @@ From Blue Require Wire.Model Wire.ModelMsg.
 Import ListNotations.
 Open Scope N_scope.
 
-Module WM := Blue.Wire.Model.
-Module WG := Blue.Wire.ModelMsg.
 
 (* ---------------------------------------------------------------- shapes (retyped literals) *)
-Definition fld (num : N) (s : WM.scalar) (rest : WG.flds) : WG.flds := WG.FCons num WG.CPlain (WG.TSc s) rest.
+Definition fld (num : N) (s : Wire.Model.scalar) (rest : Wire.ModelMsg.flds) : Wire.ModelMsg.flds := Wire.ModelMsg.FCons num Wire.ModelMsg.CPlain (Wire.ModelMsg.TSc s) rest.
 
 (* struct KeyValuePut { #[prototk(1, uint64)] shared, #[prototk(2, bytes)] key_frag,
                         #[prototk(3, uint64)] timestamp, #[prototk(4, bytes)] value } *)
-Definition kv_put_shape : WG.msg :=
-  WG.MStruct (fld 1 WM.UInt64 (fld 2 WM.Bytes (fld 3 WM.UInt64 (fld 4 WM.Bytes WG.FNil)))).
+Definition kv_put_shape : Wire.ModelMsg.msg :=
+  Wire.ModelMsg.MStruct (fld 1 Wire.Model.UInt64 (fld 2 Wire.Model.Bytes (fld 3 Wire.Model.UInt64 (fld 4 Wire.Model.Bytes Wire.ModelMsg.FNil)))).
 (* struct KeyValueDel { #[prototk(5, uint64)] shared, #[prototk(6, bytes)] key_frag,
                         #[prototk(7, uint64)] timestamp } *)
-Definition kv_del_shape : WG.msg :=
-  WG.MStruct (fld 5 WM.UInt64 (fld 6 WM.Bytes (fld 7 WM.UInt64 WG.FNil))).
+Definition kv_del_shape : Wire.ModelMsg.msg :=
+  Wire.ModelMsg.MStruct (fld 5 Wire.Model.UInt64 (fld 6 Wire.Model.Bytes (fld 7 Wire.Model.UInt64 Wire.ModelMsg.FNil))).
 (* enum KeyValueEntry { #[prototk(8, message)] Put(KeyValuePut), #[prototk(9, message)] Del(KeyValueDel) } *)
-Definition kv_entry_shape : WG.msg :=
-  WG.MEnum (WG.VOne 8 (WG.TMsg kv_put_shape) (WG.VOne 9 (WG.TMsg kv_del_shape) WG.VNil)).
+Definition kv_entry_shape : Wire.ModelMsg.msg :=
+  Wire.ModelMsg.MEnum (Wire.ModelMsg.VOne 8 (Wire.ModelMsg.TMsg kv_put_shape) (Wire.ModelMsg.VOne 9 (Wire.ModelMsg.TMsg kv_del_shape) Wire.ModelMsg.VNil)).
 (* struct BlockMetadata { #[prototk(13, uint64)] start, #[prototk(14, uint64)] limit,
                           #[prototk(15, fixed32)] crc32c } *)
-Definition block_metadata_shape : WG.msg :=
-  WG.MStruct (fld 13 WM.UInt64 (fld 14 WM.UInt64 (fld 15 WM.Fixed32 WG.FNil))).
+Definition block_metadata_shape : Wire.ModelMsg.msg :=
+  Wire.ModelMsg.MStruct (fld 13 Wire.Model.UInt64 (fld 14 Wire.Model.UInt64 (fld 15 Wire.Model.Fixed32 Wire.ModelMsg.FNil))).
 (* struct FinalBlock { #[prototk(16, message)] index_block, #[prototk(17, message)] filter_block,
      #[prototk(19, bytes32)] setsum, #[prototk(20, uint64)] smallest_timestamp,
      #[prototk(21, uint64)] biggest_timestamp, #[prototk(18, fixed64)] final_block_offset } *)
-Definition final_block_shape : WG.msg :=
-  WG.MStruct (WG.FCons 16 WG.CPlain (WG.TMsg block_metadata_shape)
-             (WG.FCons 17 WG.CPlain (WG.TMsg block_metadata_shape)
-             (fld 19 WM.Bytes32 (fld 20 WM.UInt64 (fld 21 WM.UInt64 (fld 18 WM.Fixed64 WG.FNil)))))).
+Definition final_block_shape : Wire.ModelMsg.msg :=
+  Wire.ModelMsg.MStruct (Wire.ModelMsg.FCons 16 Wire.ModelMsg.CPlain (Wire.ModelMsg.TMsg block_metadata_shape)
+             (Wire.ModelMsg.FCons 17 Wire.ModelMsg.CPlain (Wire.ModelMsg.TMsg block_metadata_shape)
+             (fld 19 Wire.Model.Bytes32 (fld 20 Wire.Model.UInt64 (fld 21 Wire.Model.UInt64 (fld 18 Wire.Model.Fixed64 Wire.ModelMsg.FNil)))))).
 (* enum SstEntry { #[prototk(10, bytes)] PlainBlock, #[prototk(13, bytes)] FilterBlock,
                    #[prototk(12, bytes)] FinalBlock } *)
-Definition sst_entry_shape : WG.msg :=
-  WG.MEnum (WG.VOne 10 (WG.TSc WM.Bytes) (WG.VOne 13 (WG.TSc WM.Bytes) (WG.VOne 12 (WG.TSc WM.Bytes) WG.VNil))).
+Definition sst_entry_shape : Wire.ModelMsg.msg :=
+  Wire.ModelMsg.MEnum (Wire.ModelMsg.VOne 10 (Wire.ModelMsg.TSc Wire.Model.Bytes) (Wire.ModelMsg.VOne 13 (Wire.ModelMsg.TSc Wire.Model.Bytes) (Wire.ModelMsg.VOne 12 (Wire.ModelMsg.TSc Wire.Model.Bytes) Wire.ModelMsg.VNil))).
 
 (* ---------------------------------------------------------------- values *)
-Definition entry_val (be : bentry) : WG.val :=
+Definition entry_val (be : bentry) : Wire.ModelMsg.val :=
   match be_val be with
-  | Some v => WG.VV 0 (WG.VL [WG.VZ (Z.of_N (be_shared be)); WG.VB (be_frag be);
-                              WG.VZ (Z.of_N (be_ts be)); WG.VB v])
-  | None => WG.VV 1 (WG.VL [WG.VZ (Z.of_N (be_shared be)); WG.VB (be_frag be); WG.VZ (Z.of_N (be_ts be))])
+  | Some v => Wire.ModelMsg.VV 0 (Wire.ModelMsg.VL [Wire.ModelMsg.VZ (Z.of_N (be_shared be)); Wire.ModelMsg.VB (be_frag be);
+                              Wire.ModelMsg.VZ (Z.of_N (be_ts be)); Wire.ModelMsg.VB v])
+  | None => Wire.ModelMsg.VV 1 (Wire.ModelMsg.VL [Wire.ModelMsg.VZ (Z.of_N (be_shared be)); Wire.ModelMsg.VB (be_frag be); Wire.ModelMsg.VZ (Z.of_N (be_ts be))])
   end.
 
 (* KeyValueEntry::{shared, key_frag, timestamp, value} of an unpacked value *)
-Definition entry_of_val (v : WG.val) : option bentry :=
+Definition entry_of_val (v : Wire.ModelMsg.val) : option bentry :=
   match v with
-  | WG.VV O (WG.VL [WG.VZ s; WG.VB f; WG.VZ t; WG.VB x]) =>
+  | Wire.ModelMsg.VV O (Wire.ModelMsg.VL [Wire.ModelMsg.VZ s; Wire.ModelMsg.VB f; Wire.ModelMsg.VZ t; Wire.ModelMsg.VB x]) =>
       Some {| be_shared := Z.to_N s; be_frag := f; be_ts := Z.to_N t; be_val := Some x |}
-  | WG.VV (S O) (WG.VL [WG.VZ s; WG.VB f; WG.VZ t]) =>
+  | Wire.ModelMsg.VV (S O) (Wire.ModelMsg.VL [Wire.ModelMsg.VZ s; Wire.ModelMsg.VB f; Wire.ModelMsg.VZ t]) =>
       Some {| be_shared := Z.to_N s; be_frag := f; be_ts := Z.to_N t; be_val := None |}
   | _ => None
   end.
 
-Definition metadata_val (s l crc : N) : WG.val := WG.VL [WG.VZ (Z.of_N s); WG.VZ (Z.of_N l); WG.VZ (Z.of_N crc)].
+Definition metadata_val (s l crc : N) : Wire.ModelMsg.val := Wire.ModelMsg.VL [Wire.ModelMsg.VZ (Z.of_N s); Wire.ModelMsg.VZ (Z.of_N l); Wire.ModelMsg.VZ (Z.of_N crc)].
 
 (* a record that a Rust KeyValueEntry can be: u64 fields, byte strings *)
 Definition bentry_ok (be : bentry) : Prop :=
-  be_shared be < WM.W64 /\ be_ts be < WM.W64 /\ WM.bytes_ok (be_frag be) /\ len (be_frag be) < WM.W64 /\
-  match be_val be with Some v => WM.bytes_ok v /\ len v < WM.W64 | None => True end.
+  be_shared be < Wire.Model.W64 /\ be_ts be < Wire.Model.W64 /\ Wire.Model.bytes_ok (be_frag be) /\ len (be_frag be) < Wire.Model.W64 /\
+  match be_val be with Some v => Wire.Model.bytes_ok v /\ len v < Wire.Model.W64 | None => True end.
 
 (* ---------------------------------------------------------------- results *)
-Definition lift {A} (r : WM.res A) : result A :=
+Definition lift {A} (r : Wire.Model.res A) : result A :=
   match r with
-  | WM.Ok a => Ok a
-  | WM.Err _ => Err EUnpack
-  | WM.Panic => Err EPanic
-  | WM.OutOfFuel => Err EFuel
+  | Wire.Model.Ok a => Ok a
+  | Wire.Model.Err _ => Err EUnpack
+  | Wire.Model.Panic => Err EPanic
+  | Wire.Model.OutOfFuel => Err EFuel
   end.
 
 (* ---------------------------------------------------------------- Block::new on raw bytes *)
@@ -96,11 +94,11 @@ Definition usub (a b : N) : result N := if b <=? a then Ok (a - b) else Err EPan
 Definition bblock_new (bs : bytes) : result bblock :=
   if len bs <? 4 then Err EUnpack                             (* block_too_small *)
   else
-    r <- lift (WM.le_unpack 4 (skipn (N.to_nat (len bs - 4)) bs)) ;;   (* up.unpack::<u32>() *)
+    r <- lift (Wire.Model.le_unpack 4 (skipn (N.to_nat (len bs - 4)) bs)) ;;   (* up.unpack::<u32>() *)
     let nr := fst r in
     let capstone := 1 + 4 in
     let footer_body := nr * 4 in
-    let footer_head := 1 + WM.v64_pack_sz footer_body in
+    let footer_head := 1 + Wire.Model.v64_pack_sz footer_body in
     x <- usub (len bs) capstone ;;
     ridx <- usub x footer_body ;;
     boundary <- usub ridx footer_head ;;
@@ -110,11 +108,11 @@ Definition bblock_new (bs : bytes) : result bblock :=
 Definition bk_restart_point (k : bblock) (i : N) : result N :=
   if bk_nr k <=? i then Err EPanic
   else
-    b0 <- lift (WM.get (bk_bytes k) (bk_ridx k + i * 4)) ;;
-    b1 <- lift (WM.get (bk_bytes k) (bk_ridx k + i * 4 + 1)) ;;
-    b2 <- lift (WM.get (bk_bytes k) (bk_ridx k + i * 4 + 2)) ;;
-    b3 <- lift (WM.get (bk_bytes k) (bk_ridx k + i * 4 + 3)) ;;
-    Ok (WM.of_le_bytes [b0; b1; b2; b3]).
+    b0 <- lift (Wire.Model.get (bk_bytes k) (bk_ridx k + i * 4)) ;;
+    b1 <- lift (Wire.Model.get (bk_bytes k) (bk_ridx k + i * 4 + 1)) ;;
+    b2 <- lift (Wire.Model.get (bk_bytes k) (bk_ridx k + i * 4 + 2)) ;;
+    b3 <- lift (Wire.Model.get (bk_bytes k) (bk_ridx k + i * 4 + 3)) ;;
+    Ok (Wire.Model.of_le_bytes [b0; b1; b2; b3]).
 
 (* &bytes[offset..boundary] (panics when offset > boundary or boundary > len) *)
 Definition bk_slice (k : bblock) (off : N) : result bytes :=
@@ -127,7 +125,7 @@ Definition bk_extract_key (k : bblock) (ri off : N) (key : bytes) : result pos :
   if bk_boundary k <=? off then Ok PLast
   else
     sl <- bk_slice k off ;;
-    r <- lift (WG.msg_unpack kv_entry_shape sl) ;;
+    r <- lift (Wire.ModelMsg.msg_unpack kv_entry_shape sl) ;;
     match entry_of_val (fst r) with
     | None => Err EUnpack
     | Some be =>
